@@ -583,7 +583,9 @@ func (x *explorer) explore() {
 				return
 			}
 			n := x.nodes[jobs[i].from]
-			resB[i] = execute(x.cfg, n.st, n.done, jobs[i].plan)
+			rb := execute(x.cfg, n.st, n.done, jobs[i].plan)
+			rb.proc, rb.failing = nil, nil // the statement log is not needed any more: keep the level small
+			resB[i] = rb
 		})
 		for i, j := range jobs {
 			rb := resB[i]
@@ -690,7 +692,7 @@ func main() {
 		replay(r)
 		return
 	}
-	debug.SetGCPercent(800)
+	debug.SetGCPercent(150)
 	if pf := os.Getenv("C18_PROF"); pf != "" {
 		f, _ := os.Create(pf)
 		pprof.StartCPUProfile(f)
